@@ -172,6 +172,10 @@ pub struct Req {
     pub payload: Vec<u8>,
     /// events emitted on the device before the request: (endpoint, cluster, event, fabric index or 0)
     pub emit: Vec<(u16, u32, u32, u8)>,
+    /// follow-up chunks of a chunked Write action (the first message then carries MoreChunkedMessages):
+    /// `(delay_ms, payload)` — the virtual clock is advanced by `delay_ms` after the answer to the
+    /// previous chunk, then the chunk is sent on the same exchange
+    pub more: Vec<(u64, Vec<u8>)>,
 }
 
 pub struct Answer {
@@ -179,6 +183,8 @@ pub struct Answer {
     pub top: String,
     pub resp: Vec<String>,
     pub effects: Vec<String>,
+    /// the answers to the follow-up chunks that were sent: (top, resp, effects)
+    pub more: Vec<(String, Vec<String>, Vec<String>)>,
 }
 
 pub struct Env {
@@ -360,9 +366,14 @@ fn render(opcode: u8, payload: &[u8], resp: &mut Vec<String>, top: &mut String) 
     }
 }
 
-async fn client_side(client: &Matter<'_>, req: &Req, resp: &mut Vec<String>, top: &mut String) -> Result<(), Error> {
+/// answers of the messages sent so far: (top, resp, handler-log length after the answer)
+type Answers = Vec<(String, Vec<String>, usize)>;
+
+async fn client_side(client: &Matter<'_>, req: &Req, answers: &mut Answers) -> Result<(), Error> {
     let mut ex = Exchange::initiate(client, test_only_crypto(), NonZeroU8::new(1).unwrap(), DEVICE_ID).await?;
+    let mut first_delay = 0u64;
     if let Some((timeout, delay)) = req.timed {
+        first_delay = delay;
         ex.send_with(|_, wb| {
             wb.start_struct(&TLVTag::Anonymous)?;
             wb.u16(&TLVTag::Context(0), timeout)?;
@@ -378,44 +389,56 @@ async fn client_side(client: &Matter<'_>, req: &Req, resp: &mut Vec<String>, top
         };
         if !ok {
             let rx = ex.rx()?;
-            *top = format!("timedfail:{}", status_of(rx.payload()));
+            let top = format!("timedfail:{}", status_of(rx.payload()));
             ex.rx_done()?;
             let _ = ex.acknowledge().await;
+            answers.push((top, Vec::new(), SHARED.lock().unwrap().log.len()));
             return Ok(());
         }
         ex.rx_done()?;
-        // the window: the device's clock moves on before the action arrives
-        MockDriver::get().advance(Duration::from_millis(delay));
     }
     let opcode = req.opcode;
-    let bytes = &req.payload;
-    ex.send_with(|_, wb| {
-        wb.append(bytes)?;
-        Ok(Some(opcode.into()))
-    })
-    .await?;
-    let mut chunks = 0;
-    loop {
-        ex.recv_fetch().await?;
-        let (rop, more) = {
-            let rx = ex.rx()?;
-            let rop = rx.meta().proto_opcode;
-            (rop, render(rop, rx.payload(), resp, top))
-        };
-        ex.rx_done()?;
-        chunks += 1;
-        if more && chunks < 300 {
-            ex.send_with(|_, wb| {
-                StatusResp::write(wb, IMStatusCode::Success)?;
-                Ok(Some(OpCode::StatusResponse.into()))
-            })
-            .await?;
-        } else {
-            let _ = rop;
-            let _ = ex.acknowledge().await;
-            return Ok(());
+    let n_msgs = 1 + req.more.len();
+    for k in 0..n_msgs {
+        let (delay, bytes): (u64, &Vec<u8>) = if k == 0 { (first_delay, &req.payload) } else { (req.more[k - 1].0, &req.more[k - 1].1) };
+        // the window: the device's clock moves on before the action (chunk) arrives
+        MockDriver::get().advance(Duration::from_millis(delay));
+        ex.send_with(|_, wb| {
+            wb.append(bytes)?;
+            Ok(Some(opcode.into()))
+        })
+        .await?;
+        let mut top = String::from("-");
+        let mut resp: Vec<String> = Vec::new();
+        let mut chunks = 0;
+        loop {
+            ex.recv_fetch().await?;
+            let more = {
+                let rx = ex.rx()?;
+                let rop = rx.meta().proto_opcode;
+                render(rop, rx.payload(), &mut resp, &mut top)
+            };
+            ex.rx_done()?;
+            chunks += 1;
+            if more && chunks < 300 {
+                ex.send_with(|_, wb| {
+                    StatusResp::write(wb, IMStatusCode::Success)?;
+                    Ok(Some(OpCode::StatusResponse.into()))
+                })
+                .await?;
+            } else {
+                break;
+            }
+        }
+        let refused = top != "-";
+        answers.push((top, resp, SHARED.lock().unwrap().log.len()));
+        if refused {
+            // a request-level status ends the action: the remaining chunks are not sent
+            break;
         }
     }
+    let _ = ex.acknowledge().await;
+    Ok(())
 }
 
 const OP_POLLS: u64 = 400_000;
@@ -434,8 +457,7 @@ pub fn run_request(device: &Matter<'_>, env: &Env, req: &Req) -> Answer {
         },
         Sess::Pase { fab } => (SessionMode::Pase { fab_idx: *fab }, 1),
     };
-    let mut resp: Vec<String> = Vec::new();
-    let mut top = String::from("-");
+    let mut answers: Answers = Vec::new();
     let setup = (|| -> Result<(), Error> {
         set_session(device, &crypto, DEVICE_ID, peer_id, dev_mode)?;
         set_session(
@@ -448,7 +470,7 @@ pub fn run_request(device: &Matter<'_>, env: &Env, req: &Req) -> Answer {
         Ok(())
     })();
     if let Err(e) = setup {
-        return Answer { top: format!("setup:{:?}", e.code()), resp, effects: Vec::new() };
+        return Answer { top: format!("setup:{:?}", e.code()), resp: Vec::new(), effects: Vec::new(), more: Vec::new() };
     }
     // fresh IM state per request: empty event queue, no subscriptions
     let state: Box<InteractionModelState<DummyNetworks, 3, EVENTS_BUF>> = Box::new(InteractionModelState::new(DummyNetworks));
@@ -485,7 +507,7 @@ pub fn run_request(device: &Matter<'_>, env: &Env, req: &Req) -> Answer {
                 dm.run(),
             )
             .coalesce();
-            let client_fut = client_side(&env.client, req, &mut resp, &mut top);
+            let client_fut = client_side(&env.client, req, &mut answers);
             match select(device_side, client_fut).await {
                 Either::First(r) => Some(format!("devend:{:?}", r.map_err(|e| e.code()))),
                 Either::Second(Ok(())) => None,
@@ -494,13 +516,28 @@ pub fn run_request(device: &Matter<'_>, env: &Env, req: &Req) -> Answer {
         },
         OP_POLLS,
     );
-    match outcome {
-        None => top = "hang".into(),
-        Some(Some(why)) => top = why,
-        Some(None) => {}
+    let fail = match outcome {
+        None => Some("hang".to_string()),
+        Some(Some(why)) => Some(why),
+        Some(None) => None,
+    };
+    let log = SHARED.lock().unwrap().log.clone();
+    if let Some(why) = fail {
+        // the message in flight got no answer: report the failure in its place
+        answers.push((why, Vec::new(), log.len()));
     }
-    let effects = SHARED.lock().unwrap().log.clone();
-    Answer { top, resp, effects }
+    let mut parts: Vec<(String, Vec<String>, Vec<String>)> = Vec::new();
+    let mut from = 0usize;
+    for (top, resp, upto) in answers {
+        let upto = upto.min(log.len()).max(from);
+        parts.push((top, resp, log[from..upto].to_vec()));
+        from = upto;
+    }
+    if parts.is_empty() {
+        parts.push(("hang".into(), Vec::new(), Vec::new()));
+    }
+    let (top, resp, effects) = parts.remove(0);
+    Answer { top, resp, effects, more: parts }
 }
 
 type Pipe<'a, const N: usize> = Channel<'a, MatterRawMutex, heapless::Vec<u8, N>>;
